@@ -30,6 +30,7 @@
 #include <stdbool.h>
 
 #include "buffered_reader.h"
+#include "list.h"
 #include "http_server.h"
 
 #ifdef __cplusplus
@@ -37,6 +38,7 @@ extern "C" {
 #endif
 
 struct http_connection {
+	struct list_head next_connection;
 	struct buffered_reader br;
 	http_parser parser;
 	http_parser_settings parser_settings;
@@ -52,6 +54,7 @@ int init_http_connection(struct http_connection *connection, const struct http_s
 int init_http_connection2(struct http_connection *connection, const struct http_server *server, struct buffered_reader *reader, bool is_local_connection,
                           unsigned int compression_level);
 void free_connection(void *context);
+void close_all_http_connections(void);
 int send_http_error_response(struct http_connection *connection);
 
 #define HTTP_OK 200
